@@ -187,7 +187,17 @@ def one_case(col: Collector, rng, index: int, max_nodes: int):
             fd, path = tempfile.mkstemp(prefix="v12", suffix=".dill")
             os.close(fd)
             try:
-                Cascade(g).serialise(path)
+                if rng.random() < 0.3:
+                    # history on one Cascade object: written once while still empty, extended in place, written again -- the second
+                    # file must hold the graph as it is now
+                    from earthkit.workflows.graph import Graph
+                    c = Cascade(Graph([]))
+                    c.serialise(path)
+                    c._graph = g          # (`+=` would also de-duplicate equal computations: that is C11's business, not a loss)
+                    c.serialise(path)
+                    col.count("cascade_written_again_after_in_place_extension")
+                else:
+                    Cascade(g).serialise(path)
                 back = Cascade.from_serialised(path)._graph
             finally:
                 os.unlink(path)
